@@ -156,6 +156,14 @@ func planC16(c *Ctx, run int64) *Plan {
 		// a source produced elsewhere: valid, digest matching, but not in this library's normal form
 		mk(Op{K: "denorm"})
 	}
+	if Chance(r, 0.3) {
+		// every regime × addon pairing: the same invoice without its addons, or with another addon
+		a := ""
+		if Chance(r, 0.35) {
+			a = Pick(r, allAddons(c.Repo))
+		}
+		mk(Op{K: "setaddons", S: a})
+	}
 	signed := stampMode == 3 || Chance(r, 0.4)
 	if signed {
 		mk(Op{K: "sign", I: int64(r.IntN(3))})
@@ -379,6 +387,34 @@ func execC16(x *X) {
 			}
 		case "stamp":
 			src.Head.AddStamp(&head.Stamp{Provider: cbc.Key(op.S), Value: op.S2})
+		case "setaddons":
+			b := Marshal(src)
+			v, err := ParseJV(b)
+			if err != nil {
+				break
+			}
+			if op.S == "" {
+				v.Get("doc").Del("$addons")
+			} else {
+				v.Get("doc").Set("$addons", &JV{K: 'a', A: []*JV{JStr(op.S)}})
+			}
+			e2, err := ParseEnv(v.Encode(nil))
+			if err != nil {
+				break
+			}
+			if safely(func() { err = e2.Calculate() }) != "" || err != nil {
+				break
+			}
+			if srcT, err := ParseJV(Marshal(e2)); err == nil && srcT.Get("doc").Get("code").Str() != "" {
+				src, srcTree = e2, srcT
+				d = &Doc{Name: d.Name, Regime: d.Regime, Kind: d.Kind, Env: Marshal(e2)}
+				d.Addons = nil
+				if op.S != "" {
+					d.Addons = []string{op.S}
+				}
+				def, _ = mergedCorrection(x.C.Repo, d.Regime, d.Addons)
+				x.Probe("source-with-replaced-addons")
+			}
 		case "denorm":
 			// rewrite percentages "21.0%" as "21%" (same value, other precision) and recompute the
 			// digest WITHOUT calculating: what another implementation or an older release stores
